@@ -9,6 +9,7 @@ limits.  The other decode sites are covered by mutant enumeration on the real
 code (see design.d/C14.md).
 -/
 import XlModel.Lemmas.Decode
+import XlModel.Lemmas.DecodeRows
 import XlModel.Generated.FactsC14
 import XlModel.Props.C20
 
@@ -612,8 +613,7 @@ theorem guards_rows_iterator :
 /-- clause "never run without bound", one step of the iterator, for EVERY token sequence: `Next` advances
 `seekRow` by exactly one, never puts tokens back, and a `true` answer either is the catch-up step
 (`curRow ≥ seekRow`) or consumed a token; `curRow` only moves to `curRow + 1` or to a row number within
-TotalRows.  (The number of `GetRows` iterations is therefore at most TotalRows + 2 × tokens; that global
-bound is not assembled as a theorem — the fuel-bounded run `getRowsIter` is compared with `GetRows`.) -/
+TotalRows.  (The global bound assembled from these steps is `getRows_iterations_bounded` below.) -/
 theorem rows_next_step (s : RowsState) :
     (rowsNext s).2.2.seek = s.seek + 1 ∧
     (rowsNext s).2.2.toks.length ≤ s.toks.length ∧
@@ -627,6 +627,29 @@ theorem rows_next_step (s : RowsState) :
     obtain ⟨ok, e, s'⟩ := res
     simp only at this ⊢
     exact ⟨this.1, this.2.1, fun h => Or.inr (this.2.2.1 h), this.2.2.2⟩
+
+/-- clause "never run without bound", the whole `GetRows` loop, full strength: for EVERY token sequence (any
+row numbers — absent, descending, repeated, beyond TotalRows —, any cells) the loop on a fresh iterator
+delivers at most TotalRows + 2 × tokens rows, whatever fuel the model run is given.  Budget argument:
+`curRow + remaining tokens ≤ TotalRows + tokens` is kept by `Next` and `Columns`, and
+`(TotalRows + tokens − seekRow) + remaining tokens` falls with every delivered row. -/
+theorem getRows_iterations_bounded (toks : List Tok) (fuel : Nat) :
+    (getRowsIter fuel { cur := 0, seek := 0, held := none, toks := toks } []).1.length
+      ≤ Facts.TotalRows + 2 * toks.length := by
+  have := getRowsIter_budget ((Facts.TotalRows : Int) + (toks.length : Int)) fuel
+    { cur := 0, seek := 0, held := none, toks := toks } [] (by dsimp only; omega) (by dsimp only; omega)
+  simp only [List.length_nil] at this
+  omega
+
+/-- … and therefore the fuel of the model run is never what ends it: the run the driver compares with
+`GetRows` (fuel TotalRows + 2 × tokens + 1 or more) is the unbounded run — more fuel never changes the result -/
+theorem getRows_fuel_irrelevant (toks : List Tok) (k : Nat) :
+    getRowsIter (Facts.TotalRows + 2 * toks.length + 1 + k) { cur := 0, seek := 0, held := none, toks := toks } [] =
+    getRowsIter (Facts.TotalRows + 2 * toks.length + 1) { cur := 0, seek := 0, held := none, toks := toks } [] := by
+  apply getRowsIter_fuel_enough
+  have := getRows_iterations_bounded toks (Facts.TotalRows + 2 * toks.length + 1)
+  simp only [List.length_nil]
+  omega
 
 /-! ## every index taken from a struct field -/
 
